@@ -368,7 +368,7 @@ def run(prop, report, tier, seed, replay=None):
     rng = rng_for(seed, prop, 'sched')
     cases = []
     if replay is not None:
-        cases = [replay['input']['case']]
+        cases = [replay['input']['case']] if 'case' in replay['input'] else []
     else:
         corpus_dir = os.path.join(os.path.dirname(os.path.dirname(os.path.abspath(__file__))), 'corpus', prop)
         if os.path.isdir(corpus_dir):
@@ -395,6 +395,11 @@ def run(prop, report, tier, seed, replay=None):
         stage_nested_names(report, dist)
         if replay is not None:
             return
+    if replay is not None and replay['input'].get('level') == 'runner-config':
+        replay = None        # (the directed runner-configuration check lives in the L2 stage below: run the whole stage)
+    if replay is not None and not cases:
+        report.coverage.update(evaluations=0, distinct_nontrivial=0, rule='replay of an input of another stage', samples=[])
+        return
     seen = set()
     distinct_nontrivial = 0
     xterms, xkept = [], []
